@@ -8,6 +8,14 @@ TRUST = ("Trusted base: Go 1.26.8 testing/synctest (fake clock, quiescence), the
          "in sim/driver, and third-party modules which run unmodified. A clean batch is evidence over the seeds explored, not proof.")
 
 checks = {
+ "C04": dict(level="exploration", ref="DESIGN.md §4 C04",
+   technique="deterministic simulation: seeded ingest/flush/rotate/restart histories with generated stats / group-by / timechart queries after every step, compared with a reference aggregator over the model's flushed events",
+   text="The segmentation of the data (which decides whether ingest-time statistics, running block results or merged segment results answer) is explored by seeded histories on the real node; every stats/timechart answer is compared with a small reference aggregator (exact for count/min/max, 1e-9 for sums and averages, documented generous tolerances for dc and percentiles) and any node panic or hang on a legal query is a violation.",
+   note=TRUST + " Agile tree disabled here (acceleration-vs-raw is C03's question). Measures over numeric fields only; the group of events lacking a by-field is unconstrained."),
+ "C05": dict(level="exploration", ref="DESIGN.md §4 C05",
+   technique="deterministic simulation: seeded histories with out-of-order/tied timestamps and overlapping blocks and segments; default order, head, sort (num/str/auto, multi-key, limits) and from/size paging checked against an order model",
+   text="Arrival order x flush/rotation timing produces overlapping block and segment time ranges on the real node; the searcher's block scheduling, cut-off timestamps and carry-over, the sort processor and the scroll offsets are then checked by order laws: newest-first, the n newest, adjacent pairs ordered under the requested keys, a limit is a prefix, pages partition the matches.",
+   note=TRUST + " Sort keys are dense and same-typed; ties may resolve either way."),
  "C07": dict(level="fault_enumeration", ref="DESIGN.md §4 C07",
    technique="deterministic simulation with crash-point enumeration: the process _exits after the k-th mutating file-system call of a seeded ingest history, the shipped start-up runs on the same directory, queries are checked against the event model",
    text="Every mutating file-system call of the flush/rotate/metadata code is a numbered crash point of the simulated disk; the thorough tier takes every k of every explored history (exhaustive per history and schedule), the quick tier a stratified sample. After the crash a fresh process runs the real StartSiglensServer and the oracle checks: start-up succeeds, completed flushes are fully searchable with exact content, the flush in progress is all-or-nothing per query form, no garbage, later ingestion does not overwrite recovered data, no hang.",
